@@ -37,9 +37,9 @@ fn blk(ctx: &mut Ctx) {
     let name = subj_name(&d);
     ctx.subject(&name);
     let w = ctx.cfg.par;
-    let (iv, _) = wl::iv(&mut ctx.rng, d.iv_len);
+    let (iv, _) = mode_iv(ctx, d.iv_len);
     let n = if fam == Family::Cfb8 { wl::nbytes(&mut ctx.rng, ctx.cfg.bs, w, ctx.tier).0.min(300) } else { wl::nblocks(&mut ctx.rng, w, d.bs, ctx.tier).0 };
-    let (data, dc) = wl::data(&mut ctx.rng, n * d.bs);
+    let (data, dc) = mode_data(ctx, n * d.bs);
     let (pieces, sc) = gen_pieces(ctx, n, w);
     let fill = *ctx.rng.pick(&ALL_FILLS);
     ctx.note("iv", J::s(hex_short(&iv)));
@@ -120,7 +120,7 @@ fn core(ctx: &mut Ctx) {
     let w = ctx.cfg.par;
     let (iv, _) = stream_iv(ctx, d.flavor, b);
     let (n, _) = wl::nblocks(&mut ctx.rng, w, b, ctx.tier);
-    let (data, _) = wl::data(&mut ctx.rng, n * b);
+    let (data, _) = mode_data(ctx, n * b);
     let (sizes, sc) = wl::schedule(&mut ctx.rng, n, w);
     let ops: Vec<CoreOp> = sizes.iter().map(|_| *ctx.rng.pick(&ALL_COREOPS)).collect();
     ctx.note("iv", J::s(hex_short(&iv)));
@@ -202,7 +202,7 @@ fn cts_width(ctx: &mut Ctx) {
     let b = ctx.cfg.bs;
     let w = ctx.cfg.par.max(other.par);
     let key = ctx.key.clone();
-    let (iv, _) = wl::iv(&mut ctx.rng, b);
+    let (iv, _) = mode_iv(ctx, b);
     if ctx.rng.coin() && !ctx.cfg.cts.is_empty() {
         let d1 = ctx.rng.pick(&ctx.cfg.cts).clone();
         let d2 = other.cts(d1.var).unwrap().clone();
@@ -210,8 +210,8 @@ fn cts_width(ctx: &mut Ctx) {
         let name = format!("{}/{}/width", d1.var.name(), dir.name());
         ctx.subject(&name);
         let (extra, rc) = wl::nbytes(&mut ctx.rng, b, w, ctx.tier);
-        let len = (b + extra).min(wl::MAX_BYTES);
-        let (data, _) = wl::data(&mut ctx.rng, len);
+        let len = (b + extra).min(wl::MAX_LONG_BYTES);
+        let (data, _) = mode_data(ctx, len);
         ctx.note("iv", J::s(hex_short(&iv)));
         ctx.note("data", J::s(hex_short(&data)));
         ctx.note("other_cfg", J::s(&other.name));
@@ -246,9 +246,9 @@ fn cts_width(ctx: &mut Ctx) {
         let (Some(d1), Some(d2)) = (ctx.cfg.blk(fam, dir).cloned(), other.blk(fam, dir).cloned()) else { return };
         let name = format!("{}/width", subj_name(&d1));
         ctx.subject(&name);
-        let (iv, _) = wl::iv(&mut ctx.rng, d1.iv_len);
+        let (iv, _) = mode_iv(ctx, d1.iv_len);
         let n = if fam == Family::Cfb8 { 3 * b + 1 } else { wl::nblocks(&mut ctx.rng, w, d1.bs, ctx.tier).0 };
-        let (data, _) = wl::data(&mut ctx.rng, n * d1.bs);
+        let (data, _) = mode_data(ctx, n * d1.bs);
         let (pieces, sc) = gen_pieces(ctx, n, w);
         ctx.note("iv", J::s(hex_short(&iv)));
         ctx.note("data", J::s(hex_short(&data)));
